@@ -21,7 +21,32 @@ def c_Z(n):
     return "(%d)%%Z" % n
 
 
+_INTERN = {}      # literal text -> token
+_TOKENS = {}      # token -> literal text
+TOKEN_RE = re.compile(r"\u27e6L(\d+)\u27e7")
+
+
+def _intern(lit):
+    """Long literals are hoisted into one Definition per shard (parsing them is what costs)."""
+    if len(lit) < 40:
+        return lit
+    tok = _INTERN.get(lit)
+    if tok is None:
+        tok = "\u27e6L%d\u27e7" % len(_INTERN)
+        _INTERN[lit] = tok
+        _TOKENS[tok] = lit
+    return tok
+
+
 def c_str(x):
+    return _intern(_c_str(x))
+
+
+def c_bytes(b):
+    return _intern(_c_bytes(b))
+
+
+def _c_str(x):
     """Python str -> `str` (list of code points)."""
     if all(32 <= ord(ch) < 127 and ch != '"' for ch in x) and len(x) < 4000:
         return '(s "%s")' % x
@@ -31,7 +56,7 @@ def c_str(x):
     return "[" + "; ".join("%d" % ord(ch) for ch in x) + "]"
 
 
-def c_bytes(b):
+def _c_bytes(b):
     h = bytes(b).hex()
     if len(h) <= 4000:
         return '(hx "%s")' % h
@@ -99,9 +124,14 @@ def run_case_files(workdir, header, checker, case_terms, shard=250, jobs=16, tim
     for k in range(0, max(len(case_terms), 1), shard):
         chunk = case_terms[k:k + shard]
         path = os.path.join(workdir, "cases_%05d.v" % k)
+        body = ";\n".join(chunk)
+        used = sorted(set(TOKEN_RE.findall(body)), key=int)
         with open(path, "w") as f:
             f.write(header + "\n" + extra_defs + "\n")
-            f.write("Definition cases := [\n" + ";\n".join(chunk) + "\n].\n")
+            for n in used:
+                f.write("Definition lit_%s := %s.\n" % (n, _TOKENS["\u27e6L%s\u27e7" % n]))
+            f.write("Definition cases := [\n" + TOKEN_RE.sub(lambda m: "lit_" + m.group(1), body)
+                    + "\n].\n")
             f.write("Eval vm_compute in (length cases, mismatches %s cases).\n" % checker)
         files.append((k, path, len(chunk)))
     procs = []
